@@ -71,6 +71,8 @@ pub fn unify(state: &mut TypeCheckerState, watchdog: &DynWatchdog) -> Result<()>
 
         for (ty_var, inferences) in forest.sets() {
             // If we have been told to stop, stop and return an error.
+            #[cfg(smlxl_storage_layout_extractor_verif)]
+            crate::verif_hooks::poll_site("unify.round");
             if counter % polling_interval == 0 && watchdog.should_stop() {
                 let location = state.value_unchecked(ty_var).instruction_pointer();
 
@@ -83,6 +85,9 @@ pub fn unify(state: &mut TypeCheckerState, watchdog: &DynWatchdog) -> Result<()>
             }
 
             // Get all of the inferences
+            #[cfg(smlxl_storage_layout_extractor_verif)]
+            let inferences =
+                crate::verif_hooks::permute("unify.class_inferences", inferences.into_iter().collect());
             let mut inferred_expressions: VecDeque<_> = inferences.into_iter().collect();
             let mut current = inferred_expressions
                 .pop_front()
@@ -112,18 +117,27 @@ pub fn unify(state: &mut TypeCheckerState, watchdog: &DynWatchdog) -> Result<()>
 
         // When we get to the end of that loop, we need to insert the new type variables
         // into the forest so we can add any inferences involving them
+        #[cfg(smlxl_storage_layout_extractor_verif)]
+        let all_new_ty_vars: Vec<TypeVariable> =
+            crate::verif_hooks::permute("unify.new_ty_vars", all_new_ty_vars.into_iter().collect());
         for var in all_new_ty_vars {
             forest.insert(var);
         }
 
         // When we get to the end of that loop, we need to compute the unions of
         // the variables with their new associated inferences
+        #[cfg(smlxl_storage_layout_extractor_verif)]
+        let all_equalities: Vec<Equality> =
+            crate::verif_hooks::permute("unify.equalities", all_equalities.into_iter().collect());
         for Equality { left, right } in all_equalities {
             forest.union(&left, &right);
         }
 
         // When we get to the end of that loop, we need to add any new typing judgements
         // to the state to continue computation
+        #[cfg(smlxl_storage_layout_extractor_verif)]
+        let all_judgements: Vec<Judgement> =
+            crate::verif_hooks::permute("unify.judgements", all_judgements.into_iter().collect());
         for Judgement { tv, expr } in all_judgements {
             forest.add_data(&tv, InferenceSet::from([expr]));
         }
